@@ -215,6 +215,12 @@ class Engine(ExprMixin, CallMixin):
             # bound reads field f of that object in the entry heap (the usual two-state meaning)
             if n_ in st.env:
                 o.env[n_] = st.env[n_]
+        for n_, v_ in st.ghost.items():
+            # a ghost name introduced after entry (a `let`, a ghost result) is a value, not a heap location: inside old() it
+            # denotes that value, and only the heap reads under old() go to the entry heap (names already bound at entry keep
+            # their entry value, as before)
+            if n_ not in o.ghost and n_ not in o.env:
+                o.ghost[n_] = v_
         return self.ev(node.args[0], o)
 
     def spec_allocated(self, node, st):
@@ -1459,7 +1465,7 @@ class Engine(ExprMixin, CallMixin):
             label = g.get("label", g["at"][:24])
             goal = self.spec_eval(cmd[4:], st)
             self.emit(f"ghost.cut[{label}]", st, goal, node, kind="ghost")
-            st.pc[:] = [to_z3(goal)]
+            st.pc[:] = list(st.ghost.get("__defs__", ())) + [to_z3(goal)]  # (explicit definitions made by "define" stay)
         elif cmd.startswith("assert_last "):
             # assert P proved from the last n hypotheses only (a smaller context for the solver; fewer hypotheses = sound)
             n, rest = cmd[12:].split(" ", 1)
@@ -1483,6 +1489,35 @@ class Engine(ExprMixin, CallMixin):
         elif cmd.startswith("let "):
             name, expr = cmd[4:].split("=", 1)
             st.ghost[name.strip()] = self.spec_value(expr, st)
+        elif cmd.startswith("define "):
+            # "define P(x, y) = expr": a NEW function symbol over integers (fresh at every execution of the command), defined
+            # for all arguments by expr - an explicit definition, i.e. a conservative extension (nothing about the program
+            # is assumed); lets invariants mention a large formula by name.  The defining axiom forall x, y. P(x, y) == expr
+            # (trigger P(x, y)) is built from expr evaluated at arbitrary x, y, so that an instance of it is the very term
+            # the clause text `expr` denotes for those arguments.  Definitions survive proof cuts (see "cut").
+            head, expr = cmd[7:].split("=", 1)
+            name, params = head.strip().rstrip(")").split("(")
+            name, params = name.strip(), [p_.strip() for p_ in params.split(",") if p_.strip()]
+            s2 = st.copy()
+            s2.ghost = dict(st.ghost)
+            cs = [z3.Int(uid(p_)) for p_ in params]
+            for p_, c0 in zip(params, cs):
+                s2.ghost[p_] = c0
+            body = self.spec_value(expr, s2)
+            if not (is_bool(body) or is_int(body)):
+                raise ContractError(f"define {name}: the defining expression must be a Bool or an Int")
+            body = to_z3(body)
+            f = z3.Function(uid(name), *([z3.IntSort()] * len(params) + [body.sort()]))
+            st.ghost[name] = VFunc("pyfunc", (lambda f: lambda *a: f(*[to_z3(x) for x in a]))(f), name)
+            bs = [z3.Int(uid(p_ + "b")) for p_ in params]
+            ax = z3.ForAll(bs, z3.substitute(f(*cs) == body, *zip(cs, bs)), patterns=[f(*bs)])
+            st.ghost["__defs__"] = list(st.ghost.get("__defs__", ())) + [ax]
+            st.assume(ax)
+        elif cmd.startswith("use ") and " when " in cmd:
+            # "use L(args) when C": the instance is used only where C holds (its preconditions are to be shown under C, its
+            # conclusions are assumed under C) - e.g. the induction hypothesis at n - 1 when n > 0
+            text, cond = cmd[4:].rsplit(" when ", 1)
+            self.use_lemma(text, st, node, when=to_z3(self.spec_eval(cond, st)))
         elif cmd.startswith("use "):
             self.use_lemma(cmd[4:], st, node)
         elif cmd.startswith("forall "):
@@ -1508,7 +1543,7 @@ class Engine(ExprMixin, CallMixin):
         else:
             raise ContractError(f"unknown ghost command {cmd!r}")
 
-    def use_lemma(self, text, st, node):
+    def use_lemma(self, text, st, node, when=None):
         call = ast.parse(text.strip(), mode="eval").body
         name = call.func.id
         lem = self.lemmas[name]
@@ -1524,13 +1559,14 @@ class Engine(ExprMixin, CallMixin):
             if "decreases" not in lem:
                 raise ContractError(f"lemma {name} is used in its own proof but declares no `decreases` measure")
             m_inst, m_self = to_z3(self.spec_value(lem["decreases"], s2)), to_z3(self.spec_value(lem["decreases"], st))
-            self.emit(f"lemma[{name}].induction-measure-decreases", st, z3.And(m_inst >= 0, m_inst < m_self), node, kind="lemma-pre")
+            self.emit(f"lemma[{name}].induction-measure-decreases", st, z3.And(m_inst >= 0, m_inst < m_self), node, kind="lemma-pre",
+                      guard=[when] if when is not None else ())
         elif str(getattr(self, "cur_name", "")).startswith("lemma:") and self.cur_name[6:] in self._lemma_reach(name):
             raise ContractError(f"lemma {name} is used in the proof of {self.cur_name[6:]}, which its own proof depends on (circular)")
         for k, r in enumerate(lem.get("requires", [])):
-            self.emit(f"lemma[{name}].requires.{k}", st, self.spec_eval(r, s2), node, kind="lemma-pre")
+            self.emit(f"lemma[{name}].requires.{k}", st, self.spec_eval(r, s2), node, kind="lemma-pre", guard=[when] if when is not None else ())
         for e in lem["ensures"]:
-            st.assume(to_z3(self.spec_eval(e, s2)))
+            st.assume(to_z3(self.spec_eval(e, s2)) if when is None else z3.Implies(when, to_z3(self.spec_eval(e, s2))))
         self.used_lemmas.add(name)
 
     # ------------------------------------------------------------------ top level
